@@ -409,4 +409,26 @@ theorem range_iter_total (start stop step : Int) (incl : Bool) (r : Range) (h : 
 
 example : ∃ l, (Range.mk 10 0 (-3) false).iter ((Range.mk 10 0 (-3) false).len.toNat + 1) = some l ∧ l = [10, 7, 4, 1] := ⟨_, by decide, rfl⟩
 
+/-! ## non-vacuity: the hypotheses above are met by the concrete dates of `Props/C03.lean` -/
+
+theorem ok_of_okOf {r : Except Err Date} {x : Date} (h : okOf r = some x) : r = .ok x := by
+  cases r with
+  | ok y => simp [okOf] at h; rw [h]
+  | error e => simp [okOf] at h
+
+/-- `x0` (2015-03-04T12:00:00 UTC in the eleven-day database `envEx`) is `Built`; its conversions to UT1 and TT are what
+`changeScale_observed_us` and `to_ut1_safe_zone` speak about -/
+theorem x0_built : Built envEx x0 := ofDatetime_built (sc := ix "UTC") (us := 4932187200000000) (ok_of_okOf (by decide))
+
+theorem x0_to_ut1 : changeScale cfg envEx x0 (ix "UT1") = .ok yUT1 := ok_of_okOf (by decide)
+
+example : -1 ≤ subDate yUT1 x0 ∧ subDate yUT1 x0 ≤ 1 :=
+  changeScale_observed_us (by decide) (by decide) x0_built ⟨fun _ => by simp [envEx], fun _ _ _ _ => by simp [envEx]⟩
+    (by decide) x0_to_ut1 (by decide) (by decide)
+
+/-- the hypotheses of `to_ut1_safe_zone` at noon: the UT1 reading falls on the same day, `m` = 0 suffices -/
+example : yUT1.eop = x0.eop ∧ -10 ≤ yUT1.inst - x0.inst ∧ yUT1.inst - x0.inst ≤ 10 :=
+  to_ut1_safe_zone (e0 := x0.eop) (eU := x0.eop) (off := -5351835) (m := 0) (by decide) x0_built (by decide) x0_to_ut1
+    (by decide) (by decide) (by decide) (by decide) (by decide) (by decide) (by decide) (by decide) (by decide)
+
 end BeyondVerif.C03
